@@ -25,6 +25,7 @@ SIGMA_Q = ["a", "b", "1", "0", "+", "-", "*", "/", ":", "**", "%in%", "~", "|", 
 SIGMA_T = SIGMA_Q + ["c", "2", "2.5", "^"]
 SIGMA_K = ["a", "`x y`", "log(a)", "{a+b}", "`p:q`", "`0`", "`1`", "0", "1", "+", "-", ":", "*", "(", ")", "~", "."]
 SIGMA_K4 = ["a", "`x y`", "{a+b}", "`1`", "`0`", "1", "0", "+", "-", ":", "(", ")", "~"]
+SIGMA_N = ["a", "b", "2", "2.5", "0.5", "1", ":", "+", "-", "*", "(", ")"]
 AVAILS = [["a", "b", "c"], [], ["a"], ["c", "a", "b"]]
 
 PINNED = {
@@ -548,6 +549,8 @@ def subchecks(tier, seed):
         subs.append(Sub("power-all", drv_power_all, {"names": ["a", "b", "c", "d"], "kmax": 3}, shard_depth=1, bounds={"n": 4, "k": 3}))
         subs.append(Sub("forms", drv_forms, {"k": 2, "leaves": ["a", "b", "c", "1"], "powers": ["2"]}, shard_depth=3,
                         bounds={"max_binary_operators": 2}))
+        subs.append(Sub("tokens-numeric-scalings", drv_tokens, {"sigma": SIGMA_N, "L": 4, "all_flags": False}, shard_depth=3,
+                        bounds={"alphabet": SIGMA_N, "max_tokens": 4, "note": "integer and decimal literals as scalings inside interactions"}))
         subs.append(Sub("lhs-shapes", drv_lhs, {"k": 1, "leaves": ["a", "b", ".", "1", "0"]}, shard_depth=2,
                         bounds={"lhs_shapes": [" ".join(x) for x in LHS_SHAPES], "rhs_max_binary_operators": 1, "rhs_tails": ["", "| a", "| ( a )"]}))
         subs.append(Sub("reconfigure", drv_reconfigure, {}, shard_depth=2,
@@ -573,6 +576,8 @@ def subchecks(tier, seed):
         subs.append(Sub("power-all", drv_power_all, {"names": ["a", "b", "c", "d", "e"], "kmax": 4}, shard_depth=1, bounds={"n": 5, "k": 4}))
         subs.append(Sub("forms", drv_forms, {"k": 3, "leaves": ["a", "b", "c", "1"], "powers": ["2"]}, shard_depth=3,
                         bounds={"max_binary_operators": 3}))
+        subs.append(Sub("tokens-numeric-scalings", drv_tokens, {"sigma": SIGMA_N, "L": 5, "all_flags": False}, shard_depth=3,
+                        bounds={"alphabet": SIGMA_N, "max_tokens": 5, "note": "integer and decimal literals as scalings inside interactions"}))
         subs.append(Sub("lhs-shapes", drv_lhs, {"k": 2, "leaves": ["a", "b", ".", "1", "0"]}, shard_depth=2,
                         bounds={"lhs_shapes": [" ".join(x) for x in LHS_SHAPES], "rhs_max_binary_operators": 2, "rhs_tails": ["", "| a", "| ( a )"]}))
         subs.append(Sub("reconfigure", drv_reconfigure, {}, shard_depth=2,
